@@ -37,6 +37,17 @@ def treeOrder : List (Nat × Nat) → List Nat → Bool
 def allConsistent (w : SameDir) (x : Flips) (adj : List (Nat × Nat)) : Bool :=
   adj.all (fun e => !(inconsistent w x e.1 e.2))
 
+/-! executable version: the flips as a list of booleans (the function-valued version above re-evaluates its
+    whole history on every lookup when compiled) -/
+
+def look (x : List Bool) : Flips := fun i => x.getD i false
+
+def stepL (w : SameDir) (x : List Bool) (e : Nat × Nat) : List Bool :=
+  if inconsistent w (look x) e.1 e.2 then x.set e.2 (!(x.getD e.2 false)) else x
+
+def traverseL (w : SameDir) (n : Nat) (tree : List (Nat × Nat)) : List Bool :=
+  tree.foldl (stepL w) (List.replicate n false)
+
 /-- `w` as a table over the adjacent pairs (either order), `false` elsewhere -/
 def sameDirOf (tbl : List ((Nat × Nat) × Bool)) : SameDir := fun f g =>
   match tbl.find? (fun r => (r.1.1 == f && r.1.2 == g) || (r.1.1 == g && r.1.2 == f)) with
